@@ -361,6 +361,8 @@ def _nt_c12(ev):
     k = ev["k"]
     if k == "conj":
         return (k, ev["half"], ev["star"], ev["even"], tuple(ev["pa"]), tuple(ev["pd"]), ev["form"])
+    if k == "line":
+        return (k, ev["half"], ev["vf"], ev["cf"])
     key = (k, ev["form"], tuple(ev["xin"]), ev["deg"])
     if k == "eval":
         return key + (ev["xf"],)
@@ -712,7 +714,7 @@ def plan_C20(tier, seed):
     parts, reps, passes = (14, 3, 2) if tier == "quick" else (16, 20, 4)
     sh = [Shard("api_%02d" % i, drv_api.gen_calls, dict(seed=seed, part=i, parts=parts, reps=reps, with_ill=True, passes=passes), *T)
           for i in range(parts)]
-    sh += [Shard("nbr_%02d" % i, drv_api.gen_neighbours, dict(seed=seed + 1000 * r, part=i, parts=parts), *T)
+    sh += [Shard("nbr_%02d_%d" % (i, r), drv_api.gen_neighbours, dict(seed=seed + 1000 * r, part=i, parts=parts), *T)
            for i in range(parts) for r in range(1 if tier == "quick" else 4)]
     sh += [Shard("suite_tests", drv_api.gen_testsuite, dict(kind="tests"), *T),
            Shard("suite_doctests", drv_api.gen_testsuite, dict(kind="doctests"), *T)]
